@@ -32,7 +32,15 @@ func tagOf(v Value) string {
 	return s
 }
 
-func (it *Interp) anyRange(tag string, lo, hi *big.Int, kind string) *Sym {
+func (it *Interp) anyRange(tag string, lo, hi *big.Int, kind string) Value {
+	if it.R.Pinned != nil {
+		v, _ := it.pinned(it.nextTag(tag))
+		b := bigFromDec(v)
+		if lo != nil && b.Cmp(lo) < 0 || hi != nil && b.Cmp(hi) > 0 {
+			panic(&pathEnd{why: "assume-false"})
+		}
+		return b
+	}
 	s := it.declareAny(tag, SInt, kind)
 	if lo != nil {
 		it.emit("(assert (>= " + s.T + " " + lit(lo) + "))")
@@ -84,6 +92,10 @@ func registerZZ(P *Program) {
 		return it.anyRange(tagOf(a[0]), big.NewInt(0), new(big.Int).Sub(pow2(32), big.NewInt(1)), "uint32")
 	})
 	P.reg("zzverif.AnyBool", func(it *Interp, a []Value) Value {
+		if it.R.Pinned != nil {
+			v, _ := it.pinned(it.nextTag(tagOf(a[0])))
+			return v == "true" || v == "1"
+		}
 		return it.declareAny(tagOf(a[0]), SBool, "bool")
 	})
 	// AnySdkInt: unconstrained math.Int within the 256-bit domain
@@ -102,6 +114,10 @@ func registerZZ(P *Program) {
 		return &Ptr{C: it.newCell(&BigV{V: s}, "anybig")}
 	})
 	P.reg("zzverif.AnyBig", func(it *Interp, a []Value) Value {
+		if it.R.Pinned != nil {
+			v, _ := it.pinned(it.nextTag(tagOf(a[0])))
+			return &Ptr{C: it.newCell(&BigV{V: bigFromDec(v)}, "anybig")}
+		}
 		s := it.declareAny(tagOf(a[0]), SInt, "big")
 		return &Ptr{C: it.newCell(&BigV{V: s}, "anybig")}
 	})
@@ -150,11 +166,15 @@ func registerZZ(P *Program) {
 	})
 	P.reg("zzverif.Choose", func(it *Interp, a []Value) Value {
 		n := int(asBig(a[1]).Int64())
-		tag := tagOf(a[0])
-		k := it.tagSeen[tag]
-		it.tagSeen[tag] = k + 1
-		if k > 0 {
-			tag = fmt.Sprintf("%s#%d", tag, k)
+		tag := it.nextTag(tagOf(a[0]))
+		if it.R.Pinned != nil {
+			v, _ := it.pinned(tag)
+			c := int(bigFromDec(v).Int64())
+			if c < 0 || c >= n {
+				c = 0
+			}
+			it.choices[tag] = fmt.Sprint(c)
+			return big.NewInt(int64(c))
 		}
 		c := it.chooseN(n, tag)
 		it.choices[tag] = fmt.Sprint(c)
